@@ -66,6 +66,7 @@ type outcome struct {
 	Leaked      []string
 	LeakDump    string
 	NodeFailed  bool
+	FaultFired  bool // an injected panic was raised (whether or not the node reported a failure)
 	Errors      []string
 	StopMs      int64
 }
@@ -87,10 +88,11 @@ type attempt struct {
 }
 
 type deadlines struct {
-	Step  time.Duration // reaching a gate / forking all points
-	Stop  time.Duration // the stop call, after all gates are open
-	Leak  time.Duration // goroutines winding down after the stop returned
-	Quiet time.Duration // parked and motionless for this long = will never move again
+	Step   time.Duration // reaching a gate / forking all points
+	Stop   time.Duration // the stop call, after all gates are open
+	Leak   time.Duration // goroutines winding down after the stop returned
+	Quiet  time.Duration // parked and motionless for this long = will never move again
+	Settle time.Duration // bounded wait for a node's failure report / a sink to become busy (never an error)
 }
 
 func (a *attempt) nodeByPrefix(p string) string {
@@ -133,17 +135,26 @@ func runAttempt(sc scen, post *postSink, dl deadlines) (*outcome, *attempt, erro
 	}
 	a.env = env
 	envClosed := false
-	closeEnv := func() {
-		if !envClosed {
-			envClosed = true
-			tc := time.Now()
+	// closeEnv shuts the environment down but never waits for ever: on a broken tree the TaskMaster may be
+	// unable to close (a node that never ends); the goroutines are then abandoned with the process.
+	closeEnv := func(wait time.Duration) bool {
+		if envClosed {
+			return true
+		}
+		envClosed = true
+		done := make(chan struct{})
+		go func() {
 			env.Close()
-			if d := time.Since(tc); d > time.Second && os.Getenv("C07_TIMING") != "" {
-				fmt.Printf("SLOW env.Close %v\n", d)
-			}
+			close(done)
+		}()
+		select {
+		case <-done:
+			return true
+		case <-time.After(wait):
+			return false
 		}
 	}
-	defer closeEnv()
+	defer closeEnv(5 * time.Second)
 	a.talk = &talkService{}
 	a.rec = rt.NewRecHandler("talk")
 	a.talk.next = a.rec
@@ -290,9 +301,13 @@ func runAttempt(sc scen, post *postSink, dl deadlines) (*outcome, *attempt, erro
 			return nil, nil, fmt.Errorf("stall gate %s never reached", sc.Stall)
 		}
 	}
-	if stallSink != "" && sc.Fail == "" {
-		if !a.waitSinkBusy(stallSink, dl.Step) {
-			return nil, nil, fmt.Errorf("sink %s never became busy", stallSink)
+	if stallSink != "" {
+		if sc.Fail == "" {
+			if !a.waitSinkBusy(stallSink, dl.Step) {
+				return nil, nil, fmt.Errorf("sink %s never became busy", stallSink)
+			}
+		} else {
+			a.waitSinkBusy(stallSink, dl.Settle) // the fault may keep the sink idle
 		}
 	}
 	release := func() {
@@ -309,9 +324,16 @@ func runAttempt(sc scen, post *postSink, dl deadlines) (*outcome, *attempt, erro
 	if sc.Release == "before" {
 		release()
 		if sc.Fail != "" {
-			// the fault is meant to have happened before the stop is requested
-			if !waitFor(dl.Step, func() bool { return nodeFailed(diag) }) {
-				return nil, nil, fmt.Errorf("injected fault %s did not make a node fail", sc.Fail)
+			// The fault is meant to have happened before the stop is requested.  The node's own report
+			// ("node failed") is what a healthy tree produces; a tree that mishandles the fault may never
+			// report it, which must not stall the driver: go on after a bounded wait, the stop decides.
+			if strings.HasPrefix(sc.Fail, "poison") {
+				waitFor(dl.Settle, func() bool { return nodeFailed(diag) })
+			} else {
+				if !waitFor(dl.Step, func() bool { return a.hooks.faultFired() }) {
+					return nil, nil, fmt.Errorf("injected fault %s never fired (scenario bug)", sc.Fail)
+				}
+				waitFor(dl.Settle, func() bool { return nodeFailed(diag) })
 			}
 		}
 	}
@@ -329,6 +351,54 @@ func runAttempt(sc scen, post *postSink, dl deadlines) (*outcome, *attempt, erro
 		}()
 	} else {
 		close(racingDone)
+	}
+
+	// ---- goroutine census: everything the task started must be gone once the stop call has returned.
+	// Leaked = still there, parked on a synchronisation object and motionless over several dumps.
+	censusDone := false
+	census := func() error {
+		censusDone = true
+		deadline := time.Now().Add(dl.Leak)
+		still := 0
+		lastFP := ""
+		for {
+			left := takeCensus().newKap(base)
+			if len(left) == 0 {
+				return nil
+			}
+			parked := true
+			for _, g := range left {
+				if !g.blocked() {
+					parked = false
+				}
+			}
+			fp := fingerprint(left)
+			if parked && fp == lastFP {
+				still++
+			} else {
+				still = 0
+			}
+			lastFP = fp
+			if still >= 3 {
+				// parked and motionless over several dumps after the task has been stopped: leaked
+				out.Leaked = sigs(left)
+				var b strings.Builder
+				for _, g := range left {
+					b.WriteString(g.Text)
+					b.WriteString("\n\n")
+				}
+				out.LeakDump = b.String()
+				return nil
+			}
+			if time.Now().After(deadline) {
+				return fmt.Errorf("goroutines still moving %v after the stop returned (machine too slow?): %v", dl.Leak, sigs(left))
+			}
+			if still == 0 {
+				time.Sleep(200 * time.Microsecond) // winding down: poll fast
+			} else {
+				time.Sleep(dl.Quiet / 3)
+			}
+		}
 	}
 
 	// ---- the stop
@@ -372,10 +442,29 @@ func runAttempt(sc scen, post *postSink, dl deadlines) (*outcome, *attempt, erro
 				return true
 			default:
 			}
+			// parked for good, not just passing through a short wait (a stop that returns within the
+			// next couple of milliseconds must be seen as returned with the gate closed)
+			if !a.stopperParked() {
+				return false
+			}
+			time.Sleep(2 * time.Millisecond)
+			select {
+			case sr = <-stopped:
+				gotReturn = true
+				return true
+			default:
+			}
 			return a.stopperParked()
 		})
 		if gotReturn {
+			// The stop call returned although the gate is still closed.  Whatever the task left parked
+			// behind the gate was not waited for: take the census BEFORE the gate is opened.
 			out.EarlyReturn = true
+			if sr.panicked == "" {
+				if err := census(); err != nil {
+					return nil, nil, err
+				}
+			}
 		} else if !parked {
 			return nil, nil, fmt.Errorf("stop call neither returned nor parked within %v", dl.Step)
 		}
@@ -430,48 +519,9 @@ func runAttempt(sc scen, post *postSink, dl deadlines) (*outcome, *attempt, erro
 	out.StopMs = time.Since(t0).Milliseconds()
 	<-racingDone
 
-	// ---- goroutine census: everything the task started must be gone
-	if out.Returned {
-		deadline := time.Now().Add(dl.Leak)
-		still := 0
-		lastFP := ""
-		for {
-			left := takeCensus().newKap(base)
-			if len(left) == 0 {
-				break
-			}
-			parked := true
-			for _, g := range left {
-				if !g.blocked() {
-					parked = false
-				}
-			}
-			fp := fingerprint(left)
-			if parked && fp == lastFP {
-				still++
-			} else {
-				still = 0
-			}
-			lastFP = fp
-			if still >= 3 {
-				// parked and motionless over several dumps after the task has been stopped: leaked
-				out.Leaked = sigs(left)
-				var b strings.Builder
-				for _, g := range left {
-					b.WriteString(g.Text)
-					b.WriteString("\n\n")
-				}
-				out.LeakDump = b.String()
-				break
-			}
-			if time.Now().After(deadline) {
-				return nil, nil, fmt.Errorf("goroutines still moving %v after the stop returned (machine too slow?): %v", dl.Leak, sigs(left))
-			}
-			if still == 0 {
-				time.Sleep(200 * time.Microsecond) // winding down: poll fast
-			} else {
-				time.Sleep(dl.Quiet / 3)
-			}
+	if out.Returned && !censusDone {
+		if err := census(); err != nil {
+			return nil, nil, err
 		}
 	}
 
@@ -480,12 +530,15 @@ func runAttempt(sc scen, post *postSink, dl deadlines) (*outcome, *attempt, erro
 		a.hooks.releaseAll()
 		env.Influx.Release()
 		a.rec.Release()
-		closeEnv()
+		if !closeEnv(dl.Stop) {
+			return nil, nil, fmt.Errorf("the environment did not close within %v after the stop call had returned", dl.Stop)
+		}
 		out.Final = a.delivered()
 	} else {
 		out.Final = out.AtReturn
 		envClosed = true // a hung TaskMaster cannot be closed; the process ends soon anyway
 	}
+	out.FaultFired = a.hooks.faultFired()
 	for _, e := range diag.Errors() {
 		if e.Msg == "node failed" {
 			out.NodeFailed = true
